@@ -123,3 +123,112 @@ def immSchedule : ImmOut := .ranSync
 def immAbsolute (due now : Int) : ImmOut := immRelative (due - now)
 
 end Thr2Timer
+
+/-!
+# Any number of actions sharing one EventLoopScheduler thread
+
+`reactivex/scheduler/eventloopscheduler.py: run`, with items `order` (in heap order: due time, then insertion)
+queued with positive delays before the thread's first turn.  `rank i` is the due time of item `i`.
+
+* top of the loop (under the condition): `time = self.now`; every queued item whose due time is reached is
+  dequeued, head first, into the local `ready` deque;
+* outside the lock, for each ready item: read `item.is_cancelled()`, invoke if not cancelled;
+* bottom (under the condition): queue empty → idle; head due → next turn; else `condition.wait(head.due - now)`.
+
+`dispose()` of an item is `ScheduledItem.cancel` (a flag).  The variant `removeByDue` models the mechanism of a
+tempting "optimisation": `self._queue.remove(si)` — `PriorityQueue.remove` finds the FIRST heap entry that is
+`==` to the item, and `ScheduledItem.__eq__` compares due times only.
+-/
+
+namespace Thr2LoopN
+
+inductive Disp | flag | removeByDue deriving DecidableEq, Repr
+
+structure Cfg where
+  order : List Nat      -- the items, in heap order
+  rank : Nat → Nat      -- due time of each item
+  disp : Disp
+
+inductive Act where
+  | loop
+  | tick (r : Nat)      -- the clock reaches due time `r`
+  | dispose (i : Nat)
+
+structure St where
+  due : Nat → Bool := fun _ => false
+  dq : Nat → Bool := fun _ => false        -- item has left `_queue`
+  ready : List Nat := []                    -- the loop's local deque
+  c : Nat → Bool := fun _ => false          -- item's disposable disposed
+  disposed : Nat → Bool := fun _ => false   -- dispose() was called
+  early : Nat → Bool := fun _ => false      -- … before the item's due time
+  started : Nat → Bool := fun _ => false
+  pc : Nat := 0
+  waitFor : Nat := 0        -- item whose due time bounds the current `condition.wait`
+  notified : Bool := false
+  tooEarly : Bool := false  -- some item started before its due time
+  bad : Bool := false       -- some item started although disposed before its due time
+
+def init : St := {}
+
+def set (f : Nat → Bool) (i : Nat) (v : Bool) : Nat → Bool := fun j => if j = i then v else f j
+
+def startItem (s : St) (i : Nat) : St :=
+  { s with tooEarly := s.tooEarly || !s.due i, bad := s.bad || s.early i, started := set s.started i true }
+
+/-- the queued items in heap order -/
+def heap (c : Cfg) (s : St) : List Nat := c.order.filter (fun i => !s.dq i)
+
+/-- dequeue the due items, head first, stopping at the first that is not due -/
+def collect (s : St) : List Nat → St
+  | [] => s
+  | i :: rest => if s.due i then collect { s with dq := set s.dq i true, ready := s.ready ++ [i] } rest else s
+
+def loopStep (c : Cfg) (s : St) : Option (St × String) :=
+  match s.pc with
+  | 0 => some ({ collect s (heap c s) with pc := 1, notified := false }, "top")
+  | 1 =>
+    match s.ready with
+    | i :: rest =>
+      let s := { s with ready := rest }
+      if s.c i then some (s, s!"check{i}-skip") else some (startItem s i, s!"check{i}-run")
+    | [] => some ({ s with pc := 3 }, "drained")
+  | 3 =>
+    match heap c s with
+    | [] => some ({ s with pc := 5 }, "idle")
+    | h :: _ => if s.due h then some ({ s with pc := 0 }, "bottom-due") else some ({ s with pc := 4, waitFor := h }, "bottom-wait")
+  | 4 => if s.due s.waitFor || s.notified then some ({ s with pc := 0 }, "wake") else none
+  | 5 => if s.notified then some ({ s with pc := 0 }, "wake") else none
+  | _ => none
+
+def disposeStep (c : Cfg) (s : St) (i : Nat) : Option (St × String) :=
+  if s.disposed i then none
+  else
+    let s := { s with disposed := set s.disposed i true, early := set s.early i (!s.due i) }
+    match c.disp with
+    | .flag => some ({ s with c := set s.c i true }, s!"dispose{i}")
+    | .removeByDue =>
+      -- the first heap entry whose due time equals the item's
+      match (heap c s).find? (fun j => c.rank j == c.rank i) with
+      | some j => some ({ s with dq := set s.dq j true, notified := true }, s!"remove{j}")
+      | none => some ({ s with c := set s.c i true }, s!"dispose{i}")
+
+def stepL (c : Cfg) (s : St) : Act → Option (St × String)
+  | .loop => loopStep c s
+  | .tick r => some ({ s with due := fun j => s.due j || decide (c.rank j ≤ r) }, s!"tick{r}")
+  | .dispose i => disposeStep c s i
+
+def step (c : Cfg) (s : St) (a : Act) : Option St := (stepL c s a).map (·.1)
+
+/-- any list of actions is a schedule; actions that are not enabled are skipped -/
+def run (c : Cfg) (s : St) : List Act → St
+  | [] => s
+  | a :: as => run c ((step c s a).getD s) as
+
+def runLabels (c : Cfg) (s : St) : List Act → List String × St
+  | [] => ([], s)
+  | a :: as =>
+    match stepL c s a with
+    | none => let r := runLabels c s as; ("blocked" :: r.1, r.2)
+    | some (t, l) => let r := runLabels c t as; (l :: r.1, r.2)
+
+end Thr2LoopN
